@@ -10,7 +10,7 @@ ASSUMPTIONS = [
     "progress callback returns immediately (takes no virtual time)",
 ]
 STUBS = ["VClock/fake_fail_after", "ScriptedReadStream", "RecordingWriteStream", "uuid4 counter", "format stub"]
-OUTSIDE = ["more than 3 messages of traffic (quick: 2)", "callbacks that suspend", "gaps above 2 s, timeouts above 1.5 s except in the count family (n quiet polling intervals, n from the source-constant cases <= 110 (quick) / 1100 (thorough))"]
+OUTSIDE = ["more than 3 messages of traffic (quick: 2)", "callbacks that suspend", "gaps above 2 s, timeouts above 1.5 s except in the count family (n quiet polling intervals, n from the source-constant cases <= 110 (quick) / 410 (thorough))"]
 
 K = [4, 3, 5, 10, 11, 6, 0, 1]  # notification, other-id response, progress full/partial/empty, foreign progress, result, error
 GAP_MAX, T_MAX, C_MAX = 256, 192, 300
@@ -69,10 +69,10 @@ def obligations(tier, ctx):
                       pre=[f"0 <= g{i} <= {GAP_MAX}" for i in range(n)] + [f"1 <= T <= {T_MAX}", "-1 <= ra <= 1"],
                       call=f"H.nocancel({kt!r}, {gl}, T, ra)", real=f"H.nocancel_real({kt!r}, {gl}, T, ra)", backend="P", timeout=240, family="token-never-triggered"))
     from symcheck import consts
-    lim = 110 if tier == "quick" else 1100
+    lim = 110 if tier == "quick" else 410
     nc = len(consts.size_cases(lim))
     for mode in (0, 1, 2, 3):
-        obs.append(Ob(name=f"late_m{mode}", params=[("k", "int"), ("off", "int"), ("g", "int")], pre=[f"0 <= k < {nc}", "0 <= off <= 63", (("0 <= g <= 256" if tier != "quick" else "0 <= g <= 40") if mode == 1 else "g == 0")],
+        obs.append(Ob(name=f"late_m{mode}", params=[("k", "int"), ("off", "int"), ("g", "int")], pre=[f"0 <= k < {nc}", "0 <= off <= 63", (("0 <= g <= 64" if tier != "quick" else "0 <= g <= 40") if mode == 1 else "g == 0")],
                       call=f"H.late(k, off, {mode}, g, {lim})", real=f"H.late_real(k, off, {mode}, g, {lim})", backend="P", timeout=900,
                       family="count: cancel / deadline / response after c-1, c, c+1 polling intervals (c: integer constants of the source), symbolic offset inside the interval"))
     from symcheck.runner import mirror
